@@ -55,6 +55,17 @@ def _random_partition(rng, h, w):
 
 def gen_problem(rng, tier):
     h, w = rng.choice(SHAPES)
+    return _gen(rng, h, w)
+
+
+def extra_program_problems(rng):
+    """Larger boards for the program correspondence only (nothing is enumerated there): one non-square medium board and two
+    with more than 256 cells (a tall and a wide one); tanks of varied shapes, clues on the rows and columns."""
+    from . import _loop
+    return [_gen(rng, h, w, mode=rng.choice(["all", "some", "some", "noisy"])) for h, w in _loop.big_shapes(rng)]
+
+
+def _gen(rng, h, w, mode=None):
     blocks = _random_partition(rng, h, w)
     # a filling that obeys both readings: per tank a level (rows at or below it are filled)
     fill = [[False] * w for _ in range(h)]
@@ -62,7 +73,8 @@ def gen_problem(rng, tier):
         level = rng.randint(0, h)          # rows >= level are filled
         for y, x in b:
             fill[y][x] = y >= level
-    mode = rng.choice(["none", "all", "some", "some", "noisy"])
+    if mode is None:
+        mode = rng.choice(["none", "all", "some", "some", "noisy"])
     rows = [sum(fill[y]) for y in range(h)]
     cols = [sum(fill[y][x] for y in range(h)) for x in range(w)]
     if mode == "none":
